@@ -501,11 +501,12 @@ class Aspire:
                     saved_config = True
                     if defaults is not None:
                         defaults["saved_config"] = True
-                if (
-                    self.flow is not None
-                    and not saved_flow
-                    and "flow" not in h5_file
-                ):
+                if self.flow is not None:
+                    # Always store the proposal that is about to be used, so
+                    # that the file never pairs new checkpoints with the flow
+                    # of an earlier fit
+                    if "flow" in h5_file:
+                        del h5_file["flow"]
                     self.save_flow(h5_file)
                     saved_flow = True
                     if defaults is not None:
